@@ -209,12 +209,12 @@ FixFormatSpec    == Has("f")     \* 902db3f ExprFormatted.format_spec is built a
 FixSubscriptLeak == Has("g")     \* 312e751 _build drops in_subscript unless the node is a Tuple or a Constant
 FixFormattedLeak == Has("h")     \* 9caea49 _build_joinedstr drops in_formatted_str
 FixPrecedence    == Has("p")     \* 45499eb iterate methods parenthesise operands by precedence (_operand)
-FixUnpackParens  == Has("q")     \* ExprDict.iterate: _operand(value, _BOR) after `**`
-FixGenExpParens  == Has("r")     \* ExprGeneratorExp.iterate yields its own parentheses; they are the call's when it is the sole argument
-FixYieldParens   == Has("s")     \* _yield wraps a nested ExprYield / ExprYieldFrom in parentheses
-FixFieldParens   == Has("t")     \* ExprFormatted.iterate: _operand(value, _OR) (lambda / conditional, as ast.unparse)
-FixFieldBrace    == Has("u")     \* ExprFormatted.iterate: a space before a value that starts with `{`
-FixTextEscape    == Has("v")     \* ExprJoinedStr.iterate escapes quotes, backslashes and braces of literal text
+FixUnpackParens  == Has("q")     \* f9ca68b ExprDict.iterate: _operand(value, _BOR) after `**`
+FixGenExpParens  == Has("r")     \* 1b4d3ff ExprGeneratorExp.iterate yields its own parentheses; they are the call's when it is the sole argument
+FixYieldParens   == Has("s")     \* a7af8e4 _yield wraps a nested ExprYield / ExprYieldFrom in parentheses
+FixFieldParens   == Has("t")     \* 06ab195 ExprFormatted.iterate: _operand(value, _OR) (lambda / conditional, as ast.unparse)
+FixFieldBrace    == Has("u")     \* 873b196 ExprFormatted.iterate: a space before a value that starts with `{`
+FixTextEscape    == Has("v")     \* 831f109 ExprJoinedStr.iterate escapes quotes, backslashes and braces of literal text
 
 RECURSIVE Build(_, _)
 RECURSIVE BuildNode(_, _)
